@@ -1,11 +1,30 @@
 from .common import pyvc_units
 
 LEVEL = "other"
-MODULES = ["vf.contracts.c_circuit_modes"]
-EXPLANATION = "under construction"
-ASSUMPTIONS = []
-TRUSTED = []
+MODULES = ["vf.contracts.c_circuit_modes", "vf.contracts.c_heralding"]
+EXPLANATION = (
+    "Clause table. PROVED (pyvc, unbounded in mode count / ancilla count / list length): Circuit._map_mode returns the mode-th user-visible "
+    "full mode (not an ancilla; exactly k ancillas below it) for every set of distinct internal modes [loop invariant with ghost rank k, "
+    "sorted() contract with index maps]. BOUNDED (mechanism C, exhaustive, labelled bounded, never counted as proved): the contract of "
+    "Circuit.add itself - ModeRangeError iff the visible span is too short; otherwise U_full, heralds, internal modes, n_modes and "
+    "input_modes of the result equal the composition wire(P,S,m) built from the statement (new ancillas located by search), old ancillas "
+    "untouched; argument unchanged - over every history of <=1 earlier heralded addition and one checked addition, parents <=3 (quick) / "
+    "<=4 (thorough) visible modes, sub-circuits <=3/4 modes with 0-2 heralds in every in/out placement and both declaration orders, "
+    "photon numbers {0,1}, grouped and ungrouped, plain and once-nested; sub-circuit content is a generic unitary with pairwise distinct "
+    "entries so any mis-routing changes the matrix (float comparison, atol 1e-9). OUT OF REACH for proof: the whole-function "
+    "postcondition of the 130-line Circuit.add (interacting index bookkeeping over dict orders) - stated in DESIGN.md section 5 C02."
+)
+ASSUMPTIONS = ["builtin.sorted contract (ordered rearrangement with index maps)", "two input references do not alias",
+               "bounded part: float comparison with atol 1e-9 on generic unitaries"]
+TRUSTED = ["z3 5.1 / cvc5 1.0.3", "pyvc encoding of the Python subset (A2; cross-checked by the mutant self-test)",
+           "wiring oracle vf/tasks/t_add.py:expected_abstract (written from the statement)"]
+NSHARDS = 8
 
 
 def units(tier):
-    return pyvc_units("C02", MODULES)
+    u = pyvc_units("C02", MODULES)
+    u.append(dict(kind="func", mechanism="lemmas (D: z3 induction schemas)", name="lemmas:z3", module="vf.lemmas.z3lemmas", func="unit"))
+    for k in range(NSHARDS):
+        u.append(dict(kind="func", mechanism="bounded runtime contract (C)", name=f"bounded:Circuit.add[{k}/{NSHARDS}]",
+                      module="vf.tasks.t_add", func="unit", args=dict(shard=k, nshards=NSHARDS)))
+    return u
